@@ -253,9 +253,11 @@ pub fn universal_tag(m: &Module, ty: &Ty) -> Tag {
         Ty::Seq { set, .. } | Ty::SeqOf { set, .. } => {
             if *set { Tag::u(17) } else { Tag::u(16) }
         }
-        Ty::Choice { alts, .. } => {
-            // untagged CHOICE: the smallest tag of its alternatives (8.6 / 29.x)
-            alt_tags(m, alts).into_iter().min().expect("CHOICE with no alternative")
+        Ty::Choice { alts, ext_after } => {
+            // untagged CHOICE: ordered as though it had the smallest tag of its RootAlternativeTypeList
+            // (X.691 20.2 refining X.680 8.6; nested untagged choices recurse through universal_tag)
+            let nroot = ext_after.unwrap_or(alts.len()).min(alts.len());
+            alt_tags(m, alts)[..nroot].iter().copied().min().expect("CHOICE with no root alternative")
         }
         Ty::Ref(n) => {
             let d = m.find(n).expect("reference");
@@ -358,9 +360,12 @@ pub enum Quirk {
     ZeroToMaxAsUnconstrained,
     /// INTEGER (MIN..b): the missing lower bound is taken as 0 (constrained 0..b) instead of "no lower bound"
     MinLowerBoundAsZero,
+    /// READER side only (the written bits are conformant): an open type (extension addition, CHOICE extension
+    /// alternative) of >= 16384 octets is written fragmented (X.691 11.9.3.8) but read as one unfragmented block
+    FragmentedOpenTypeNotReadable,
 }
 
-pub const ALL_QUIRKS: [Quirk; 11] = [
+pub const ALL_QUIRKS: [Quirk; 12] = [
     Quirk::SemiConstrainedAs63Bit,
     Quirk::EnumIndexInDeclarationOrder,
     Quirk::ChoiceIndexInDeclarationOrder,
@@ -372,6 +377,7 @@ pub const ALL_QUIRKS: [Quirk; 11] = [
     Quirk::U64AboveI64MaxWrapsNegative,
     Quirk::ZeroToMaxAsUnconstrained,
     Quirk::MinLowerBoundAsZero,
+    Quirk::FragmentedOpenTypeNotReadable,
 ];
 
 impl Quirk {
@@ -388,6 +394,7 @@ impl Quirk {
             Quirk::U64AboveI64MaxWrapsNegative => "u64-above-i64max-wraps-negative",
             Quirk::ZeroToMaxAsUnconstrained => "integer-0-to-max-read-as-unconstrained",
             Quirk::MinLowerBoundAsZero => "integer-min-lower-bound-read-as-zero",
+            Quirk::FragmentedOpenTypeNotReadable => "fragmented-open-type-not-readable",
         }
     }
 }
@@ -772,8 +779,13 @@ pub fn applicable_quirks(m: &Module, ty: &Ty, v: &Value, out: &mut Quirks) {
                             out.insert(Quirk::DefaultAdditionNotOpenType);
                         }
                         let mut probe = Sink::new();
-                        if encode(m, &c.ty, val, &mut probe).is_ok() && probe.bits.is_empty() {
-                            out.insert(Quirk::EmptyOpenTypeLengthZero);
+                        if encode(m, &c.ty, val, &mut probe).is_ok() {
+                            if probe.bits.is_empty() {
+                                out.insert(Quirk::EmptyOpenTypeLengthZero);
+                            }
+                            if probe.bits.len() >= 16384 * 8 {
+                                out.insert(Quirk::FragmentedOpenTypeNotReadable);
+                            }
                         }
                     }
                     applicable_quirks(m, &c.ty, val, out);
@@ -789,8 +801,13 @@ pub fn applicable_quirks(m: &Module, ty: &Ty, v: &Value, out: &mut Quirks) {
             if *idx < alts.len() {
                 if *idx >= nroot {
                     let mut probe = Sink::new();
-                    if encode(m, &alts[*idx].ty, inner, &mut probe).is_ok() && probe.bits.is_empty() {
-                        out.insert(Quirk::EmptyOpenTypeLengthZero);
+                    if encode(m, &alts[*idx].ty, inner, &mut probe).is_ok() {
+                        if probe.bits.is_empty() {
+                            out.insert(Quirk::EmptyOpenTypeLengthZero);
+                        }
+                        if probe.bits.len() >= 16384 * 8 {
+                            out.insert(Quirk::FragmentedOpenTypeNotReadable);
+                        }
                     }
                 }
                 applicable_quirks(m, &alts[*idx].ty, inner, out);
